@@ -471,6 +471,9 @@ func features(w *World, ups []result.PackageUpdate, vulns ...[]result.Vuln) stri
 		if w.Sys == "npm" && isPre(u.VersionFrom) {
 			f = append(f, "from-prerelease")
 		}
+		if w.Sys == "npm" && latestBelowHighest(w.pkg(u.Name)) {
+			f = append(f, "latest-below-highest")
+		}
 		if w.Sys == "maven" {
 			f = append(f, mavenTraits(w, u.Name)...)
 		}
@@ -496,6 +499,9 @@ func features(w *World, ups []result.PackageUpdate, vulns ...[]result.Vuln) stri
 	}
 	if o.MavenManagement {
 		f = append(f, "mavenmanagement")
+	}
+	if t := universeTraits(w); t != "" {
+		f = append(f, t)
 	}
 	sort.Strings(f)
 	out := f[:0]
@@ -581,4 +587,41 @@ func universeTraits(w *World) string {
 		}
 	}
 	return ""
+}
+
+// targetUpperBounded reports whether some universe version requires the package through a hard
+// or upper-bounded Maven requirement ([v] or [a,b)): such a requirement wins over a soft
+// override in the resolver.
+func targetUpperBounded(w *World, name string) bool {
+	if w.Sys != "maven" {
+		return false
+	}
+	for _, p := range w.Universe {
+		for _, v := range p.Vers {
+			for _, d := range v.Deps {
+				if d.Name == name && strings.HasPrefix(d.Req, "[") && !strings.HasSuffix(d.Req, ",)") {
+					return true
+				}
+			}
+		}
+	}
+	return false
+}
+
+// latestBelowHighest: the npm dist-tag latest sits on a version below the highest release
+// (the resolver prefers the tagged version when it satisfies the requirement).
+func latestBelowHighest(p *Pkg) bool {
+	if p == nil {
+		return false
+	}
+	tagged, highest := "", ""
+	for _, v := range p.Vers {
+		if strings.Contains(v.Tags, "latest") {
+			tagged = v.V
+		}
+		if !isPre(v.V) && (highest == "" || semver.NPM.Compare(v.V, highest) > 0) {
+			highest = v.V
+		}
+	}
+	return tagged != "" && highest != "" && semver.NPM.Compare(tagged, highest) < 0
 }
